@@ -254,6 +254,13 @@ struct BookSys {
         }
         if (!check) return true;
         if (added == 0) { fail(o, hist, opi, "no-point-added", "construction call added no spine point"); return true; }
+        for (uint64_t j = n0; j < n1; j++)
+            if (!std::isfinite(fp.spine.point_array[j].x) || !std::isfinite(fp.spine.point_array[j].y)) {
+                // a NaN spine point makes every outline meaningless and lets a following turn()/arc() write out of
+                // bounds (arc_num_points(NaN)); the state is not explored further
+                fail(o, hist, opi, std::string("non-finite-spine-point:") + KIND_NAME[op.kind] + (op.rel ? " rel" : " abs"), fmt("spine point %llu appended by this call is (%g,%g); the call started at (%.17g,%.17g)", (unsigned long long)j, fp.spine.point_array[j].x, fp.spine.point_array[j].y, fp.spine.point_array[n0 - 1].x, fp.spine.point_array[n0 - 1].y));
+                return true;
+            }
         if (!compare(o, hist, opi, n0, false)) return true;
         R->count("cases");
         if ((op.wm == 2 || op.om == 2) && added >= 2) { R->count("nontrivial"); R->count("book_taper_over_several_points"); }
@@ -397,9 +404,9 @@ static std::string jpts(const std::vector<V>& p) {
 }
 
 struct Member { int wcfg, ocfg, bend, join, end; };
-static JFields member_tags(const std::vector<V>& sp, const Member& m, int el, bool bend_fits, bool turn) {
+static JFields member_tags(const std::vector<V>& sp, const Member& m, int el, bool bend_fits, bool turn, const std::string& corners = "") {
     double off = group_off(m.ocfg, el);
-    return {{"join", jstr(c07::JOIN_NAME[m.join])}, {"end", jstr(END_NAME[m.end])}, {"bend", jstr(BEND_NAME[m.bend])}, {"bend_fits", jbool(bend_fits)},
+    return {{"corners", jstr(corners)}, {"join", jstr(c07::JOIN_NAME[m.join])}, {"end", jstr(END_NAME[m.end])}, {"bend", jstr(BEND_NAME[m.bend])}, {"bend_fits", jbool(bend_fits)},
             {"taper", jbool(m.wcfg == 2)}, {"width", jstr(WIDTH_NAME[m.wcfg])}, {"offset_sign", jstr(off > 0 ? "+" : off < 0 ? "-" : "0")},
             {"elements", jint(group_nel(m.ocfg))}, {"element", jint(el)}, {"points", jint((int64_t)sp.size())}, {"turn", jbool(turn)}};
 }
@@ -583,7 +590,9 @@ static void run_group(const std::vector<V>& sp, int wcfg, int ocfg, int bend, co
                     }
                     const c07::Oracle& o = eo[el].o;
                     auto tags = [&](const char* region) {
-                        JFields t = member_tags(sp, m, el, o.any_bend, o.any_turn);
+                        std::string ck;  // per corner: J = join, B = bend fits, S = straight through
+                        for (int i = 1; i + 1 < n; i++) ck += o.corner[i].bend ? "B" : fabs(o.corner[i].phi) > 1e-9 ? "J" : "S";
+                        JFields t = member_tags(sp, m, el, o.any_bend, o.any_turn, ck);
                         t.push_back({"region", jstr(region)});
                         return t;
                     };
@@ -658,9 +667,12 @@ static void run_group(const std::vector<V>& sp, int wcfg, int ocfg, int bend, co
         std::string file = R->scratch + fmt("/p%d.%s", (int)getpid(), oas ? "oas" : "gds");
         Member m0{wcfg, ocfg, bend, c07::J_NATURAL, ends[0]};
         auto ctags = [&](const Member& m, int el, const char* what) {
-            JFields t = member_tags(sp, m, el, eo[el].o.any_bend, eo[el].o.any_turn);
-            t.push_back({"format", jstr(oas ? "oas" : "gds")});
-            t.push_back({"what", jstr(what)});
+            // few tag combinations on purpose: the engine caps output per (class, tags) and per process
+            double off = group_off(m.ocfg, el);
+            std::string w = what;
+            if (w != "centerline" && w != "width" && w != "count" && w != "write") w = "region";
+            JFields t = {{"format", jstr(oas ? "oas" : "gds")}, {"join", jstr(c07::JOIN_NAME[m.join])}, {"end", jstr(END_NAME[m.end])}, {"bend_fits", jbool(eo[el].o.any_bend)},
+                         {"taper", jbool(m.wcfg == 2)}, {"offset_sign", jstr(off > 0 ? "+" : off < 0 ? "-" : "0")}, {"what", jstr(w)}};
             return t;
         };
         auto creplay = [&](const Member& m) { return member_replay(sp, m) + " c=1"; };
@@ -712,7 +724,7 @@ static void run_group(const std::vector<V>& sp, int wcfg, int ocfg, int bend, co
                 if (cl_bad) {
                     if (wcfg == 2) {
                         // tapered simple paths are documented as unsupported ("do not support width changes along the path"): observation only
-                        R->count("obs_tapered_simple_path_centerline_differs", (int64_t)rg.idx.size());
+                        R->count(opt.probe ? "obs_probe_r0.75_tapered_simple_path_centerline_differs" : "obs_tapered_simple_path_centerline_differs", (int64_t)rg.idx.size());
                         if (nontrivial) R->outcome(sub, "tapered simple path: record centre line differs from element centre line");
                     } else {
                         R->violation(sub, fmt("centerline:%s", BEND_NAME[bend]), ctags(mr, el, "centerline"), member_json(sp, mr),
@@ -850,8 +862,14 @@ static void enum_spines(int npts, const std::vector<IV>& vs, std::vector<std::ve
 }
 
 static void run_family(const std::string& name, const std::string& desc, const std::vector<std::vector<V>>& spines, const GroupOpts& opt, double timeout_s) {
+    if (getenv("C07_FAM") && name.find(getenv("C07_FAM")) == std::string::npos) return;  // development aid
     auto body = [&](int64_t i) {
-        for (int w = 0; w < 3; w++) for (int oc = 0; oc < 4; oc++) for (int b = 0; b < 3; b++) run_group(spines[i], w, oc, b, opt);
+        static const char* fw = getenv("C07_W");  // development aids
+        static const char* fb = getenv("C07_B");
+        for (int w = 0; w < 3; w++) for (int oc = 0; oc < 4; oc++) for (int b = 0; b < 3; b++) {
+            if ((fw && atoi(fw) != w) || (fb && atoi(fb) != b)) continue;
+            run_group(spines[i], w, oc, b, opt);
+        }
     };
     auto describe = [&](int64_t i) { return jobj({{"spine", jpts(spines[i])}, {"then", jstr("all width x offset x bend x join x end members of this spine")}}); };
     auto replay_of = [&](int64_t i) { return fmt("sub=outline pts=%s%s", pts_str(spines[i]).c_str(), opt.do_c ? " c=1" : ""); };
@@ -922,7 +940,7 @@ int main(int argc, char** argv) {
     const char* only = getenv("C07_ONLY");  // development aid: "book" or "outline"
     if (!only || !strcmp(only, "book")) {
         for (int ne = 1; ne <= 3; ne++) run_book(ne, 0, 2, "full");
-        run_book(2, 3, 3, "small");
+        if (!T) run_book(2, 3, 3, "small");
         if (T) {
             for (int ne = 1; ne <= 3; ne++) run_book(ne, 1, 3, "mid");
             run_book(2, 2, 3, "wide");
@@ -932,23 +950,25 @@ int main(int argc, char** argv) {
     if (only && !strcmp(only, "book")) return run.finish();
 
     // ---- (b) + (c), smallest first
-    std::vector<std::vector<V>> s2, s3, s3q, s4;
+    std::vector<std::vector<V>> s2, s3a, s3b, s3, s4a, s4b;
+    const std::string tail = ", non-reversing, fitting the 5x5 lattice scaled by 4, up to translation";
     enum_spines(2, vec_set(0), s2);
-    enum_spines(3, vec_set(0), s3);
-    enum_spines(3, vec_set(2), s3q);
     GroupOpts opt;
     opt.do_c = !getenv("C07_NOC");
     run_family("2pt", "every 2-point polyline of the 5x5 lattice scaled by 4, up to translation", s2, opt, 60);
     if (!T) {
-        run_family("3pt.dir24", "3-point polylines whose two steps are taken from the 24 short lattice vectors (8 directions, the arctan(1/2) family, doubled axis/diagonal steps), non-reversing, fitting the 5x5 lattice, up to translation", s3q, opt, 60);
+        enum_spines(3, vec_set(1), s3a);
+        run_family("3pt.dir16", "3-point polylines whose two steps are taken from the 16 shortest lattice vectors (8 directions and the arctan(1/2) family)" + tail, s3a, opt, 60);
+        enum_spines(3, vec_set(2), s3b, true);
+        run_family("3pt.dir24", "3-point polylines with steps from the 24 short lattice vectors and at least one doubled axis/diagonal step (the rest of the 24-vector family)" + tail, s3b, opt, 60);
     } else {
-        run_family("3pt", "every non-reversing 3-point polyline of the 5x5 lattice scaled by 4, up to translation", s3, opt, 60);
-        std::vector<std::vector<V>> s4p;
-        enum_spines(4, vec_set(1), s4p);
-        run_family("4pt.dir16", "4-point polylines whose three steps are taken from the 16 shortest lattice vectors (8 directions and the arctan(1/2) family), non-reversing, fitting the 5x5 lattice, up to translation", s4p, opt, 120);
-        run_probe(s4p);
-        enum_spines(4, vec_set(2), s4, true);
-        run_family("4pt.dir24", "4-point polylines whose three steps are taken from the 24 short lattice vectors with at least one doubled axis/diagonal step (the rest of the 24-vector family), non-reversing, fitting the 5x5 lattice, up to translation", s4, opt, 120);
+        enum_spines(3, vec_set(0), s3);
+        run_family("3pt", "every 3-point polyline" + tail, s3, opt, 60);
+        enum_spines(4, vec_set(1), s4a);
+        run_family("4pt.dir16", "4-point polylines whose three steps are taken from the 16 shortest lattice vectors (8 directions and the arctan(1/2) family)" + tail, s4a, opt, 120);
+        run_probe(s4a);
+        enum_spines(4, vec_set(2), s4b, true);
+        run_family("4pt.dir24", "4-point polylines with steps from the 24 short lattice vectors and at least one doubled axis/diagonal step (the rest of the 24-vector family)" + tail, s4b, opt, 120);
     }
     return run.finish();
 }
